@@ -283,6 +283,18 @@ func Gen(seed uint64, tier string) any {
 	case x < 21:
 		sc.Kind = "concurrent"
 	}
+	if r.IntN(20000) == 0 {
+		// one very long line: a $GENERATE whose text is a run of a million escaped characters (2.4 MB). Memory
+		// in proportion to the input is fine; a parser that needs a stack frame per character is not - the
+		// runtime ends the whole process when a goroutine's stack passes its limit, and that cannot be recovered
+		sc.Kind = "deep"
+		sc.Files = []File{{Name: "zones/deep.zone", Lines: []string{"$GENERATE 1-1 d <<5c61*0>> TXT x", "after 300 IN A 192.0.2.77"}}}
+		if r.IntN(2) == 0 {
+			// ... or very many lines: 400 000 directives in a row none of which yields a record (6.4 MB)
+			sc.Kind = "deeplines"
+		}
+		return sc
+	}
 	sc.Origin = core.Pick(r, "example.org.", "example.org.", "example.org", "", ".", "bad..origin.")
 	sc.DefTTL = core.Pick(r, 0, 0, 3600, 1)
 	sc.Include = core.Chance(r, 70)
@@ -767,6 +779,8 @@ func Run(t *testing.T, scAny any, verbose bool) *core.Result {
 		runSmall(sc, res, logf)
 	case "concurrent":
 		runConcurrent(t, sc, res, logf)
+	case "deep", "deeplines":
+		runDeep(sc, res, logf)
 	default:
 		runZone(sc, res, logf)
 	}
@@ -1523,6 +1537,48 @@ func selfIncludeThroughGenerate(sc *Scenario, res *core.Result, logf func(string
 	case out.err == "":
 		res.Fail("P5", "self-include-accepted", "a file including itself from inside a $GENERATE parsed without error (%d records)", out.n)
 	}
+}
+
+// runDeep: a $GENERATE line with 1.2 million escaped characters in its text. One record, then the next line.
+func runDeep(sc *Scenario, res *core.Result, logf func(string, ...any)) {
+	txt := "$GENERATE 1-1 d" + strings.Repeat("\\a", 1200000) + " TXT x\nafter 300 IN A 192.0.2.77\n"
+	what := "a $GENERATE line with a million escaped characters"
+	if sc.Kind == "deeplines" {
+		// each of these expands to a $TTL directive: no record, the parser comes back for the next line
+		txt = "first 300 IN A 192.0.2.76\n" + strings.Repeat("$GENERATE 1-1 $$TTL 5\n", 400000) + "after 300 IN A 192.0.2.77\n"
+		what = "400 000 $GENERATE directives in a row that yield no record"
+	}
+	type result struct {
+		n        int
+		err, pan string
+	}
+	out, ok := guarded(3*limit, func() (r result) {
+		defer func() {
+			if p := recover(); p != nil {
+				r.pan = fmt.Sprintf("%v\n%s", p, libFrames(string(debug.Stack())))
+			}
+		}()
+		zp := dns.NewZoneParser(strings.NewReader(txt), "example.org.", "zones/deep.zone")
+		for _, ok := zp.Next(); ok && r.n < 10; _, ok = zp.Next() {
+			r.n++
+		}
+		if e := zp.Err(); e != nil {
+			r.err = e.Error()
+		}
+		return r
+	})
+	res.Bump("oracle.P7_long_run_of_escapes")
+	switch {
+	case !ok:
+		hang(res, "parsing "+what)
+	case out.pan != "":
+		res.Fail("P2", "panic:"+firstFrame(out.pan), "the parser panicked on %s: %s", what, out.pan)
+	case out.n != 2 && out.err == "":
+		res.Fail("P3", "records-lost", "%s, with a record on either side: %d records, no error", what, out.n)
+	}
+	logf("deep: %d records, err %q", out.n, out.err)
+	res.Nontrivial = true
+	res.Class = "deep/" + errClass(out.err)
 }
 
 // --- another task of the application registers and removes a private record type while this one parses
